@@ -57,7 +57,7 @@ func c16Build(v c16Vec, placement int) *c16Decl {
 		u.Long = "ulongx"
 	}
 	if v.desc {
-		u.Desc = "UDESCX"
+		u.Desc = "UDESCX 100%d of %s"
 	}
 	switch v.def {
 	case 1:
@@ -98,7 +98,7 @@ func c16Build(v c16Vec, placement int) *c16Decl {
 	add := &decl.Cmd{Field: "Add", Name: "add", Desc: "ADDDESC", LongDesc: "ADDLONGDESC", Aliases: []string{"ADDALX"}, SubOptional: true, Cmds: []*decl.Cmd{deep},
 		Opts: []*decl.Opt{by("AddO", "", "addopt", "ADDODESC")}, Groups: []*decl.Group{cg},
 		Pos: []*decl.PosArg{{Field: "CA", Name: "CARGA", Type: decl.TString, Desc: "CARGADESC"}}}
-	rm := &decl.Cmd{Field: "Rm", Name: "rm", Aliases: []string{"RMALX"}, Opts: []*decl.Opt{by("RmO", "", "rmopt", "RMODESC")}}
+	rm := &decl.Cmd{Field: "Rm", Name: "rm", Desc: "RMDESC", Aliases: []string{"RMALX"}, Opts: []*decl.Opt{by("RmO", "", "rmopt", "RMODESC")}}
 	hc := &decl.Cmd{Field: "Hc", Name: "hidcmd", Desc: "HIDCDESC", Hidden: true, Opts: []*decl.Opt{by("HcO", "", "hcopt", "HCODESC")}}
 	top.Cmds = []*decl.Cmd{add, rm, hc}
 	switch placement {
@@ -137,7 +137,8 @@ func init() {
 		v := c16Vec{names: c.Choose(3), desc: c.Bool(), def: c.Choose(4), env: c.Bool(), choices: c.Bool(), valname: c.Bool(), hidden: c.Bool(), required: c.Bool()}
 		placement := c.Choose(c16NPlacements)
 		ci := c.Choose(len(c16Chains))
-		gen := c.Choose(3) // 0 WriteHelp after a parse selecting the chain, 1 the ErrHelp text, 2 man page
+		gen := c.Choose(3)       // 0 WriteHelp after a parse selecting the chain, 1 the ErrHelp text, 2 man page
+		late := c.Choose(2) == 1 // rm is hidden and hidcmd un-hidden through their public Hidden fields after a first rendering
 		if gen == 2 && ci != 0 {
 			c.Skip() // the man page covers the whole tree whatever is active
 		}
@@ -155,6 +156,21 @@ func init() {
 		if b.Err != nil {
 			c.Fail("setup-error", b.Err.Error())
 			return
+		}
+		if late {
+			if ci != 0 || placement != c16PlParser {
+				c.Skip()
+			}
+			func() {
+				defer func() { recover() }()
+				var sink bytes.Buffer
+				b.Parser.ParseArgs([]string{"pa", "pb", "nosuchcommand"})
+				b.Parser.WriteHelp(&sink)
+				b.Parser.WriteManPage(&sink)
+			}()
+			b.Parser.Find("rm").Hidden = true
+			b.Parser.Find("hidcmd").Hidden = false
+			c.Hit("late-hidden-toggle")
 		}
 		text := ""
 		func() {
@@ -256,8 +272,8 @@ func init() {
 			if u.Short != "" && !hasShort() {
 				miss("short-name", "-u")
 			}
-			if v.desc && !has("UDESCX") {
-				miss("description", "UDESCX")
+			if v.desc && !has("UDESCX 100%d of %s") {
+				miss("description", "UDESCX 100%d of %s") // verbatim, including the per-cent signs
 			}
 			if v.valname && !has("UVALX") {
 				miss("value-name", "UVALX")
@@ -302,8 +318,21 @@ func init() {
 			}
 		}
 		// bystanders and commands (fixed part of the declaration)
+		if late {
+			// the listing follows the current marks: rm gone, hidcmd listed
+			for _, m := range []string{"RMDESC", "RMALX"} {
+				if has(m) {
+					c.Fail("command-hidden-later-still-shown|"+gname, excerpt(text, m))
+					return
+				}
+			}
+			if !has("HIDCDESC") {
+				c.Fail("command-unhidden-later-not-shown|"+gname, text)
+			}
+			return
+		}
 		if gen == 2 {
-			for _, m := range []string{"toplong", "TOPDESC", "subopt", "SUBODESC", "addopt", "ADDODESC", "cgopt", "deepopt", "rmopt", "ADDDESC", "ADDALX", "DEEPDESC", "RMALX"} {
+			for _, m := range []string{"toplong", "TOPDESC", "subopt", "SUBODESC", "addopt", "ADDODESC", "cgopt", "deepopt", "rmopt", "ADDDESC", "ADDALX", "DEEPDESC", "RMALX", "RMDESC"} {
 				if !has(m) {
 					c.Fail("visible-item-missing|man|bystander", m)
 					return
@@ -321,7 +350,7 @@ func init() {
 		wantNot := []string{"hidgopt", "HIDGODESC", "HIDGNAME", "hidcmd", "HIDCDESC", "hcopt"}
 		switch ci {
 		case 0:
-			want = append(want, "add", "ADDDESC", "ADDALX", "rm")
+			want = append(want, "add", "ADDDESC", "ADDALX", "rm", "RMDESC", "RMALX")
 			wantNot = append(wantNot, "addopt", "rmopt", "deepopt", "cgopt")
 		case 1:
 			want = append(want, "addopt", "ADDODESC", "cgopt", "CGODESC", "CARGADESC", "deep", "DEEPDESC")
@@ -354,7 +383,7 @@ func init() {
 		Body:       body,
 		Rule: "option under test with every attribute vector {short only, long only, both} x description? x default {none, tag, tag+mask, tag+mask '-'} x env? x choices? x value-name? x hidden? x required? (768 vectors) " +
 			"x 10 placements (parser group, namespaced subgroup with env-namespace, hidden subgroup, command, command's group, hidden command, sub-subcommand, sibling command, subgroup nested in the env-namespaced subgroup without / with its own env-namespace) x 5 active chains (none, add, add deep, rm, the hidden command) " +
-			"x {WriteHelp after a parse that selects the chain, the ErrHelp text of --help at that chain, WriteManPage}; every string is a unique marker; oracle: a visible option's markers (names, value name, choices, description, default or mask, env) are present and its description sits on its row, " +
+			"x {WriteHelp after a parse that selects the chain, the ErrHelp text of --help at that chain, WriteManPage} (+ a variant where one command is hidden and another un-hidden through the public Hidden field after a first help/man rendering on the same parser); every string is a unique marker; oracle: a visible option's markers (names, value name, choices, description, default or mask, env) are present and its description sits on its row, " +
 			"nothing of a hidden option / hidden group / hidden or inactive command appears, a masked default's real value never appears; the fixed part of the declaration (bystander options, described positionals, commands with aliases, hidden command and group) is checked on every leaf; " +
 			"distinct = distinct (generator, visible?, placement, chain, markers present)",
 		Assumptions:  []string{"not demanded of the man page: choices, positional arguments, env beside a default (man.go never rendered them)", "help of an active hidden command is not defined by the statement and is skipped"},
